@@ -432,6 +432,20 @@ func (fc *FuncCtx) applyContract(st *State, call *ast.CallExpr, fn *types.Func, 
 		t := fc.cevalIn(postEnv, e, call)
 		fc.assume(st, t.S)
 	}
+	// returned pointers that are elements of a slice argument: the receiving variable becomes an alias
+	fc.pendingAlias = nil
+	for _, al := range c.Aliases {
+		for _, a := range args {
+			if a.name != al.Base || a.expr == nil {
+				continue
+			}
+			if !fc.isPathExpr(a.expr) {
+				continue
+			}
+			idx := postEnv.eval(al.Idx)
+			fc.pendingAlias = append(fc.pendingAlias, pendingAlias{call: call, result: al.Result, base: a.expr, idx: idx})
+		}
+	}
 	// ghost outputs become visible in the caller under "<callee>.<name>" of the latest call
 	for _, g := range c.Ghost {
 		st.ghost[fn.Name()+"_"+g.Name] = postEnv.vars[g.Name]
@@ -1264,4 +1278,33 @@ func (fc *FuncCtx) inlineCall(st *State, call *ast.CallExpr, fn *types.Func, rec
 		fc.writeBack(st, a, post, call)
 	}
 	return results
+}
+
+type pendingAlias struct {
+	call   *ast.CallExpr
+	result int
+	base   ast.Expr
+	idx    Term
+}
+
+// elementAlias builds the expression base[#k] where #k is a fresh ghost variable holding the (frozen) index.
+func (fc *FuncCtx) elementAlias(st *State, base ast.Expr, idx Term) ast.Expr {
+	fc.nfresh++
+	name := fmt.Sprintf("idx#%d", fc.nfresh)
+	v := types.NewVar(token.NoPos, nil, name, types.Typ[types.Int])
+	id := &ast.Ident{Name: name}
+	fc.info.Uses[id] = v
+	fc.info.Types[id] = types.TypeAndValue{Type: types.Typ[types.Int]}
+	st.vars[v] = Term{S: idx.S, T: types.Typ[types.Int]}
+	if pt, ok := fc.typeOf(base).Underlying().(*types.Pointer); ok {
+		// pointer to the slice (pointer receiver calling a value method): the element of *base
+		star := &ast.StarExpr{X: base}
+		fc.info.Types[star] = types.TypeAndValue{Type: pt.Elem()}
+		base = star
+	}
+	ix := &ast.IndexExpr{X: base, Index: id}
+	if sl, ok := fc.typeOf(base).Underlying().(*types.Slice); ok {
+		fc.info.Types[ix] = types.TypeAndValue{Type: sl.Elem()}
+	}
+	return ix
 }
